@@ -239,6 +239,33 @@ def check(ctx):
                 if isinstance(n, (ast.List, ast.Tuple)) and len(n.elts) >= 2 and all(
                         isinstance(e, ast.Attribute) and isinstance(e.value, ast.Name) and e.value.id == 'self' for e in n.elts):
                     order = [e.attr for e in n.elts]
+    # semantic first: the member block evaluated (E4) over a symbolic Facilities object - the order in which the three member
+    # variables are rendered, however the block is assembled (comprehension, explicit loop, unrolled ifs, helper property)
+    if mvp is not None:
+        try:
+            from ..template import Evaluator as _Ev, Sym as _Sym, TObj as _TObj, Hole as _Hole, AltS as _AltS, RepS as _RepS, TStr as _TStr, TBlock as _TBlock
+            ev_ = _Ev(prog, ctx.cg)
+            fields_ = {k: _Sym('fac', (k,), prog.ann_to_type(o.module, ann, o)) for k, (ann, _d, o) in prog.class_fields(fcls).items()}
+            val_ = ev_.call_function(mvp, [], {}, 0, self_val=_TObj(fcls, fields_))
+            text_ = ev_.to_str(val_, 0) if not isinstance(val_, _TStr) else val_
+            seen_: List[str] = []
+
+            def holes_(t_):
+                for p_ in t_.parts:
+                    if isinstance(p_, _Hole) and p_.sym.root == 'fac' and p_.sym.path and p_.sym.path[0] in ('runtime', 'dispatcher', 'locator'):
+                        if p_.sym.path[0] not in seen_:
+                            seen_.append(p_.sym.path[0])
+                    elif isinstance(p_, _AltS):
+                        holes_(p_.a)
+                        holes_(p_.b)
+                    elif isinstance(p_, _RepS):
+                        holes_(p_.elem)
+            if isinstance(text_, _TStr):
+                holes_(text_)
+            if set(seen_) == {'runtime', 'dispatcher', 'locator'}:
+                order = seen_
+        except Exception:       # pylint: disable=broad-except
+            pass                # not evaluated: the literal sequence found above decides
     ok = order and set(order) == {'runtime', 'dispatcher', 'locator'} and order.index('locator') > order.index('runtime') \
         and order.index('locator') > order.index('dispatcher')
     run.add('C09.order', fcls.module.name, 'Facilities.member_variables', f'declaration order {order}', bool(ok),
